@@ -50,10 +50,21 @@ partial def readExpr (s : Sexp) : Option Expr :=
 partial def readExprs (l : List Sexp) : Option (List Expr) := l.mapM readExpr
 end
 
+def readSpec (s : String) : Option CbModel.Render.ISpec :=
+  match s.toList with
+  | ['x'] => some (.hex false)
+  | ['X'] => some (.hex true)
+  | ['b'] => some .bin
+  | 'z' :: w => (String.ofList w).toNat?.map (fun n => .dec true n)
+  | 'd' :: w => (String.ofList w).toNat?.map (fun n => .dec false n)
+  | _ => none
+
 def readItem (s : Sexp) : Option PItem :=
   match s with
   | .list [.atom "s", .str t] => some (.str t)
   | .list [.atom "e", e] => (readExpr e).map PItem.expr
+  | .list [.atom "ef", .atom sp, e] => do
+      let sp ← readSpec sp; let e ← readExpr e; pure (.exprF e sp)
   | _ => none
 
 def readNats (l : List Sexp) : Option (List Nat) :=
@@ -85,6 +96,8 @@ partial def readStmt (s : Sexp) : Option Stmt :=
   | .list [.atom "expr", e] => (readExpr e).map Stmt.expr
   | .list (.atom "print" :: items) => (items.mapM readItem).map Stmt.print
   | .list (.atom "printi" :: items) => (items.mapM readItem).map Stmt.printI
+  | .list (.atom "printf" :: .str fmt :: items) => (items.mapM readItem).map (Stmt.printF fmt)
+  | .list (.atom "printraw" :: items) => (items.mapM readItem).map Stmt.printRaw
   | .list [.atom "if", c, .list t] => do
       let c ← readExpr c; let t ← readStmts t; pure (.ifS c t none)
   | .list [.atom "if", c, .list t, .list e] => do
